@@ -10,6 +10,7 @@ remainder (`buffered()`) and of the data span.
 -/
 import RioModel.Proofs.HtmlNext
 import RioModel.Proofs.HtmlStream7
+import RioModel.Proofs.HtmlClosed5
 
 namespace Rio.C16
 open Rio.Html Rio.Html.Tokenizer
@@ -324,7 +325,8 @@ example :
 
 /-- **prefix stability of `tag_attr()`**: if the `n`-th `next()` did not hit the end of the data and returned a start /
 self-closing tag, then on EVERY extension of the input the same call returns a tag with the same attribute spans, and
-the first `tag_attr()` returns the same key / value / has-more (by `tagAttr_sim` the same holds for every further call) -/
+the first `tag_attr()` returns the same key / value / has-more; EVERY FURTHER call too: theorem
+`tag_attr_prefix_stable_all` below (`attrCalls k` = the state after `k` calls of `tag_attr()`) -/
 theorem tag_attr_prefix_stable (bytes ext : Array Nat) (ctx : List Nat) (n : Nat) (hn : 0 < n)
     (hne : (nexts n (Tokenizer.newFragment bytes ctx)).err = false)
     (hk : (nexts n (Tokenizer.newFragment bytes ctx)).token = .startTag ∨
@@ -360,5 +362,179 @@ theorem tag_attr_restart (bytes : Array Nat) (ctx : List Nat) (k n : Nat) (hn : 
   have sp := next_spans _ (nexts_inv m _ (restartCtx_inv _ inv hc))
   have ha : AttrsOk (nexts (m + 1) (restartCtx (nexts k (Tokenizer.newFragment bytes ctx)))) := (sp.attrs hk).1
   exact (tagAttr_sim s.1.1.toPre sv ha s.1.2).1
+
+/-! ### every `tag_attr()` call; the attribute texts of a `Simple` start tag -/
+
+/-- the state after `k` calls of `tag_attr()` -/
+def attrCalls : Nat → Tokenizer → Tokenizer
+  | 0, t => t
+  | k + 1, t => attrCalls k (tagAttr t).2
+
+/-- related states stay related under `tag_attr()`, and the results agree -/
+theorem tagAttr_step {F : Prop} {p : Nat} {t u : Tokenizer} (c : Pre F p t u) (sv : Sav p t u) (inv : Inv u)
+    (ha : AttrsOk u) (htok : t.token = u.token) :
+    (tagAttr t).1 = (tagAttr u).1 ∧ Pre F p (tagAttr t).2 (tagAttr u).2 ∧ Sav p (tagAttr t).2 (tagAttr u).2 ∧
+    Inv (tagAttr u).2 ∧ AttrsOk (tagAttr u).2 ∧ (tagAttr t).2.token = (tagAttr u).2.token := by
+  have s := tagAttr_sim c sv ha htok
+  have su := tagAttr_spec u inv ha
+  have hnt : (tagAttr t).1 ≠ .panic := by rw [s.1]; exact su.1
+  obtain ⟨kt, et⟩ := tag_attr_frame t hnt
+  obtain ⟨ku, eu⟩ := tag_attr_frame u su.1
+  refine ⟨s.1, ?_, s.2, su.2.1, su.2.2.1, ?_⟩
+  · rw [et, eu]
+    exact ⟨c.size, c.agree, c.full, c.rawE, c.err, c.rawTag, c.cdata, c.panic, c.hang, c.utf8⟩
+  · rw [et, eu]; exact htok
+
+theorem attrCalls_sim {F : Prop} {p : Nat} : ∀ (k : Nat) {t u : Tokenizer}, Pre F p t u → Sav p t u → Inv u →
+    AttrsOk u → t.token = u.token → (tagAttr (attrCalls k t)).1 = (tagAttr (attrCalls k u)).1
+  | 0, _, _, c, sv, inv, ha, htok => (tagAttr_step c sv inv ha htok).1
+  | k + 1, _, _, c, sv, inv, ha, htok => by
+    obtain ⟨_, c', sv', inv', ha', htok'⟩ := tagAttr_step c sv inv ha htok
+    exact attrCalls_sim k c' sv' inv' ha' htok'
+
+/-- **prefix stability of EVERY `tag_attr()` call** (review D, 8c): under the hypotheses of `tag_attr_prefix_stable`, for every
+`k` the `(k+1)`-th `tag_attr()` on the extended input returns what it returns on the original input -/
+theorem tag_attr_prefix_stable_all (bytes ext : Array Nat) (ctx : List Nat) (n : Nat) (hn : 0 < n)
+    (hne : (nexts n (Tokenizer.newFragment bytes ctx)).err = false)
+    (hk : (nexts n (Tokenizer.newFragment bytes ctx)).token = .startTag ∨
+      (nexts n (Tokenizer.newFragment bytes ctx)).token = .selfClosing) (k : Nat) :
+    (tagAttr (attrCalls k (nexts n (extend (Tokenizer.newFragment bytes ctx) ext)))).1 =
+      (tagAttr (attrCalls k (nexts n (Tokenizer.newFragment bytes ctx)))).1 := by
+  have inv := newFragment_inv bytes ctx
+  have s := nexts_simA n _ _ (pre_extend (Tokenizer.newFragment bytes ctx) ext) inv (Or.inr hne) hn
+  have htl : isTagLike (nexts n (Tokenizer.newFragment bytes ctx)).token = true := by
+    rcases hk with h | h <;> rw [h] <;> rfl
+  obtain ⟨m, rfl⟩ : ∃ m, n = m + 1 := ⟨n - 1, by omega⟩
+  have sp := next_spans _ (nexts_inv m _ inv)
+  exact attrCalls_sim k s.1.1.toPre (s.2 htl) (nexts_inv (m + 1) _ inv) (sp.attrs hk).1 s.1.2
+
+/-- … and after a restart (any context): every `tag_attr()` call returns the same -/
+theorem tag_attr_restart_all (bytes : Array Nat) (ctx : List Nat) (k n : Nat) (hn : 0 < n)
+    (herr : (nexts k (Tokenizer.newFragment bytes ctx)).err = false)
+    (hk : (nexts n (restartCtx (nexts k (Tokenizer.newFragment bytes ctx)))).token = .startTag ∨
+      (nexts n (restartCtx (nexts k (Tokenizer.newFragment bytes ctx)))).token = .selfClosing) (j : Nat) :
+    (tagAttr (attrCalls j (nexts n (nexts k (Tokenizer.newFragment bytes ctx))))).1 =
+      (tagAttr (attrCalls j (nexts n (restartCtx (nexts k (Tokenizer.newFragment bytes ctx)))))).1 := by
+  have inv := nexts_inv k _ (newFragment_inv bytes ctx)
+  have hc := raw_tag_is_context bytes ctx k
+  have s := nexts_restart_ctxA n _ inv herr hc hn
+  have htl : isTagLike (nexts n (restartCtx (nexts k (Tokenizer.newFragment bytes ctx)))).token = true := by
+    rcases hk with h | h <;> rw [h] <;> rfl
+  obtain ⟨m, rfl⟩ : ∃ m, n = m + 1 := ⟨n - 1, by omega⟩
+  have iu := restartCtx_inv _ inv hc
+  have sp := next_spans _ (nexts_inv m _ iu)
+  exact attrCalls_sim j s.1.1.toPre (s.2 htl) (nexts_inv (m + 1) _ iu) (sp.attrs hk).1 s.1.2
+
+/-- **the attribute texts of a start tag of the `Simple` grammar** (restated from `Proofs/HtmlClosed5.lean` so that it is
+audited): on `<name attrs trail (> | />)` — any name `read_tag_name` accepts, attributes in every quoting style with optional
+white space around `=` — the slices `tag_attr()` takes from the saved spans are, in order, the keys and the values (without
+quotes, `[]` for a bare key), and `number_attribute_returned = 0` -/
+theorem attrs_texts (t : Tokenizer) (disp : Bytes) (as : List SAttr) (trail : Bytes) (e : TagEnd)
+    (ok : Ok t) (he : t.err = false) (htag : t.rawTag = []) (hn : nameOK2 disp = true)
+    (hok : ∀ a ∈ as, a.ok = true) (htr : ∀ b ∈ trail, isWs b = true) (hend : endOK as trail e = true)
+    (h : Has t t.rawE ([60] ++ disp ++ attrsOf as ++ trail ++ e.text)) :
+    (next t).attrs.toList.map (fun s => ((t.buf.extract s.ks s.ke).toList, (t.buf.extract s.vs s.ve).toList)) =
+      as.map (fun a => (a.key, a.val.value)) ∧ (next t).nAttrRet = 0 :=
+  Tokenizer.attrs_texts t disp as trail e ok he htag hn hok htr hend h
+
+/-- after `i` calls of `tag_attr()` on a tag token only `number_attribute_returned` has moved -/
+theorem attrCalls_state : ∀ (i : Nat) (s : Tokenizer), Inv s → AttrsOk s → (s.token = .startTag ∨ s.token = .selfClosing) →
+    s.nAttrRet + i ≤ s.attrs.size → attrCalls i s = { s with nAttrRet := s.nAttrRet + i }
+  | 0, s, _, _, _, _ => rfl
+  | i + 1, s, inv, ha, hk, hle => by
+    have sp := tagAttr_spec s inv ha
+    have hlt : s.nAttrRet < s.attrs.size := by omega
+    have hst : (tagAttr s).2 = { s with nAttrRet := s.nAttrRet + 1 } := by
+      have hkb : (s.token == .startTag || s.token == .selfClosing) = true := by rcases hk with h | h <;> simp [h]
+      have hnp := sp.1
+      unfold tagAttr at hnp ⊢
+      rw [dif_pos hlt, if_pos hkb] at hnp ⊢
+      simp only at hnp ⊢
+      split
+      · rename_i h1; rw [h1] at hnp; exact absurd rfl hnp
+      · rename_i k h1
+        rw [h1] at hnp
+        simp only at hnp
+        split
+        · rfl
+        · rename_i hv
+          rw [if_neg hv] at hnp
+          split
+          · rename_i h2; rw [h2] at hnp; exact absurd rfl hnp
+          · split <;> rfl
+    simp only [attrCalls]
+    rw [hst, attrCalls_state i ({ s with nAttrRet := s.nAttrRet + 1 } : Tokenizer)
+      ⟨inv.raw, ⟨inv.ok.le, inv.ok.panic, inv.ok.hang, inv.ok.utf8⟩, inv.tag⟩ (show AttrsOk _ from ha) hk
+      (by show s.nAttrRet + 1 + i ≤ s.attrs.size; omega)]
+    show ({ s with nAttrRet := s.nAttrRet + 1 + i } : Tokenizer) = _
+    rw [show s.nAttrRet + 1 + i = s.nAttrRet + (i + 1) by omega]
+
+/-- **the `i`-th `tag_attr()`** (0-based, review D item 5) on such a tag returns `(key_i lower-cased, value_i verbatim,
+i + 1 < n)`, provided key and value are valid UTF-8 (else it returns `Err(FromUtf8Error)`, `tag_attr_ok_of_utf8`) -/
+theorem tag_attr_ith (t : Tokenizer) (disp : Bytes) (as : List SAttr) (trail : Bytes) (e : TagEnd)
+    (inv : Inv t) (he : t.err = false) (htag : t.rawTag = []) (hn : nameOK2 disp = true)
+    (hok : ∀ a ∈ as, a.ok = true) (htr : ∀ b ∈ trail, isWs b = true) (hend : endOK as trail e = true)
+    (h : Has t t.rawE ([60] ++ disp ++ attrsOf as ++ trail ++ e.text))
+    (i : Nat) (hi : i < as.length) (hvk : validUtf8 as[i].key = true) (hvv : validUtf8 as[i].val.value = true) :
+    (tagAttr (attrCalls i (next t))).1 =
+      .ok (some (as[i].key.map lowerByte), some as[i].val.value, decide (i + 1 < as.length)) := by
+  obtain ⟨spans, r1, r2, r3⟩ := attrs_closed_form t disp as trail e inv.ok he htag hn hok htr hend h
+  have pc := (start_tag_closed_form2 t disp as trail e inv.ok he htag hn hok htr hend h).1
+  have hk : (next t).token = .startTag ∨ (next t).token = .selfClosing := by
+    rw [pc.token]; cases e <;> simp [TagEnd.kind]
+  have i1 := next_inv t inv
+  have ha : AttrsOk (next t) := ((next_spans t inv).attrs hk).1
+  have hlen : spans.length = as.length := r2.length
+  have hsz : (next t).attrs.size = as.length := by rw [r1]; simpa using hlen
+  have hst := attrCalls_state i (next t) i1 ha hk (by rw [r3, hsz]; omega)
+  rw [hst, r3, Nat.zero_add]
+  generalize hS : ({ next t with nAttrRet := i } : Tokenizer) = S
+  have hSa : S.attrs = (next t).attrs := by rw [← hS]
+  have hSn : S.nAttrRet = i := by rw [← hS]
+  have hSb : S.buf = t.buf := by rw [← hS]; exact pc.buf
+  have invS : Inv S := by rw [← hS]; exact ⟨i1.raw, ⟨i1.ok.le, i1.ok.panic, i1.ok.hang, i1.ok.utf8⟩, i1.tag⟩
+  have haS : AttrsOk S := by rw [← hS]; exact ha
+  have hkS : S.token = .startTag ∨ S.token = .selfClosing := by rw [← hS]; exact hk
+  have hiS : S.nAttrRet < S.attrs.size := by rw [hSn, hSa, hsz]; exact hi
+  have hget : S.attrs[S.nAttrRet]'hiS = spans[i]'(by rw [hlen]; exact hi) := by
+    simp only [hSn, hSa, r1]; rfl
+  have so := r2.get i (by rw [hlen]; exact hi) hi
+  obtain ⟨k1, k2, v1, v2⟩ := so
+  have ek : (S.buf.extract (S.attrs[S.nAttrRet]'hiS).ks (S.attrs[S.nAttrRet]'hiS).ke).toList = as[i].key := by
+    rw [hget, hSb, k2]; exact extract_of_has k1
+  have ev : (S.buf.extract (S.attrs[S.nAttrRet]'hiS).vs (S.attrs[S.nAttrRet]'hiS).ve).toList = as[i].val.value := by
+    rw [hget, hSb, v2]; exact extract_of_has v1
+  have sp := (tagAttr_spec S invS haS).2.2.2.2 hiS hkS (by rw [ek]; exact hvk) (by rw [ev]; exact hvv)
+  rw [sp, ek, ev, hSn, hSa, hsz]
+
+/-- non-vacuity of `attrs_texts` / `tag_attr_ith` (review D): `<A b=c D='e f' g>` — unquoted value, single-quoted value with
+a space and an upper-case key, bare key — satisfies the hypotheses, the texts are `[(b, c), (D, e f), (g, "")]` and the three
+`tag_attr()` calls return `(b, c, true)`, `(d, e f, true)`, `(g, "", false)` (kernel evaluation of the model) -/
+def exAttrs : List SAttr :=
+  [{ ws := [32], key := [98], val := .unq [99] }, { ws := [32], key := [68], val := .sq [101, 32, 102] },
+   { ws := [32], key := [103], val := .none }]
+
+def exTag : List Nat := [60, 65, 32, 98, 61, 99, 32, 68, 61, 39, 101, 32, 102, 39, 32, 103, 62]
+
+example : exTag = [60] ++ [65] ++ attrsOf exAttrs ++ [] ++ TagEnd.gt.text := by decide
+
+example :
+    (next (Tokenizer.new exTag.toArray)).attrs.toList.map (fun s =>
+      (((Tokenizer.new exTag.toArray).buf.extract s.ks s.ke).toList, ((Tokenizer.new exTag.toArray).buf.extract s.vs s.ve).toList)) =
+      [([98], [99]), ([68], [101, 32, 102]), ([103], [])] :=
+  (attrs_texts (Tokenizer.new exTag.toArray) [65] exAttrs [] .gt ⟨Nat.zero_le _, rfl, rfl, rfl⟩ rfl rfl (by decide)
+    (by decide) (by simp) rfl (has_new exTag)).1
+
+example :
+    ((tagAttr (attrCalls 0 (next (Tokenizer.new exTag.toArray)))).1 matches .ok (some [98], some [99], true)) ∧
+    ((tagAttr (attrCalls 1 (next (Tokenizer.new exTag.toArray)))).1 matches .ok (some [100], some [101, 32, 102], true)) ∧
+    ((tagAttr (attrCalls 2 (next (Tokenizer.new exTag.toArray)))).1 matches .ok (some [103], some [], false)) := by
+  decide +kernel
+
+/-- `tag_attr_ith` instantiated on the same tag: its hypotheses hold (second attribute, upper-case key `D` → `d`) -/
+example : (tagAttr (attrCalls 1 (next (Tokenizer.new exTag.toArray)))).1 =
+    .ok (some ([68].map lowerByte), some [101, 32, 102], decide (1 + 1 < exAttrs.length)) :=
+  tag_attr_ith (Tokenizer.new exTag.toArray) [65] exAttrs [] .gt (new_inv _) rfl rfl (by decide) (by decide) (by simp) rfl
+    (has_new exTag) 1 (by decide) (by decide) (by decide)
 
 end Rio.C16
